@@ -33,7 +33,8 @@ type Spec struct {
 	Functions []string `json:"functions"` // "<pkg rel path>#<Recv.Name|Name>"
 	Lemmas    []string `json:"lemmas"`
 	Level     string   `json:"level"`
-	Unclaimed []string `json:"unclaimed"` // obligation names knowingly not discharged (reported as undecided, never as violations)
+	View      string   `json:"view"`      // contracts declared `viewfunc <view> ...` replace the plain contracts of the same functions in this check
+	Unclaimed []string `json:"unclaimed"`// obligation names knowingly not discharged (reported as undecided, never as violations)
 	Bounded   []BoundedSpec `json:"bounded"`
 	MetaLemmas []string `json:"meta_lemmas"`
 	Explanation string `json:"explanation"`
@@ -87,6 +88,7 @@ func loadEngine(pkgPatterns []string, overlay map[string][]byte) (*Engine, map[s
 	if err != nil {
 		return nil, nil, err
 	}
+	applyView(cs, gView)
 	eng := &Engine{prog: prog, fset: prog.Fset, cs: cs, srcCache: map[string][]byte{}, globalsRO: map[*ssa.Global]bool{}, typeTags: map[string]int{}, notes: map[string]bool{}}
 	return eng, byPath, nil
 }
@@ -263,6 +265,7 @@ func cmdCheck(id, tier string, writeBaseline, verbose bool) int {
 	var eng *Engine
 	if len(spec.Functions) > 0 || len(spec.Lemmas) > 0 {
 		var pk map[string]*ssa.Package
+		gView = spec.View
 		eng, pk, err = loadEngine(spec.Packages, gOverlay)
 		if err != nil {
 			fmt.Println("ERROR loading packages:", err)
